@@ -532,6 +532,99 @@ class Spec:
 
 
 # ----------------------------------------------------------------------------------------------------
+# keys of a user class whose __eq__ only understands its own kind ("arbitrary hashable keys"): the cache must never
+# compare a key with anything but another key (e.g. with an internal sentinel)
+
+class StrictKey:
+    def __init__(self, name):
+        self.name = name
+
+    def __hash__(self):
+        return hash(self.name)
+
+    def __eq__(self, other):
+        return self.name == other.name          # AttributeError for anything that is not a StrictKey
+
+    def __repr__(self):
+        return 'StrictKey(%r)' % self.name
+
+
+def strict_shard(arg):
+    clsname, ms, lead = arg
+    from boltons import cacheutils
+    from mc.inputs import Tally
+    cls = getattr(cacheutils, clsname)
+    t = Tally()
+    names = ALLKEYS[:ms + 1]
+    KO = {n: StrictKey(n) for n in names}
+    ops = []
+    for n in names:
+        ops += [('set', n, 0), ('getitem', n), ('getd', n, 'D'), ('del', n), ('popd', n, 'D'), ('setdefaultd', n, 1)]
+    ops += [('popitem',), ('clear',), ('copy',), ('update_pairs', ((names[0], 1), (names[-1], 0))),
+            ('ior', ((names[-1], 1),))]
+
+    def tr(op):     # names -> key objects in an operation
+        if op[0] in ('update_pairs', 'ior'):
+            return (op[0], tuple((KO[k], v) for k, v in op[1]))
+        return op if len(op) == 1 else (op[0], KO[op[1]]) + tuple(op[2:])
+
+    import itertools
+    for rest in itertools.product(ops, repeat=2):
+        hist = (lead,) + rest
+        c = cls(max_size=ms)
+        ref = Ref(clsname == 'LRU', ms, False)
+        case = {'config': {'class': clsname, 'max_size': ms, 'keys': 'StrictKey objects'}, 'history': [list(o) for o in hist]}
+        t.count(nontrivial=True, sample=case)
+        for i, op in enumerate(hist):
+            try:
+                if op[0] == 'copy':
+                    c2 = c.copy()
+                    r_i = ('ok', None)
+                    got = {k.name: v for k, v in dict.items(c2)}
+                    if got != ref.contents():
+                        t.bad('C02|strict-keys|op:copy|contents', case, ref.contents(), got)
+                        break
+                    c = c2
+                    ref = ref.copy()
+                    continue
+                r_i = impl_apply(c, tr(op))
+                if op[0] == 'popitem' and r_i[0] == 'ok':
+                    r_i = ('ok', (r_i[1][0].name, r_i[1][1]))
+            except Exception as e:           # an exception escaping the guarded apply (should not happen)
+                r_i = ('exc', type(e).__name__)
+            r_m = ref.apply(op, r_i)
+            got = {getattr(k, 'name', k): v for k, v in dict.items(c)}
+            if r_i != r_m:
+                t.bad('C02|strict-keys|op:%s|result' % op[0], case, r_m, r_i)
+                break
+            if got != ref.contents():
+                t.bad('C02|strict-keys|op:%s|contents' % op[0], case, ref.contents(), got)
+                break
+        else:
+            # reads with key objects, and the eviction order by further inserts of key objects
+            for n in names:
+                if (KO[n] in c) != (n in ref.contents()):
+                    t.bad('C02|strict-keys|read:in', case, n in ref.contents(), KO[n] in c)
+            try:
+                same = (c == {KO[k]: v for k, v in ref.contents().items()})
+            except Exception as e:
+                same = 'raised ' + type(e).__name__
+            if same is not True:
+                t.bad('C02|strict-keys|read:==dict(equal)', case, True, same)
+            gone = []
+            try:
+                for j in range(ms + 1):
+                    c[StrictKey('probe%d' % j)] = j
+                    for n in names:
+                        if n in ref.contents() and n not in gone and not dict.__contains__(c, KO[n]):
+                            gone.append(n)
+            except Exception as e:
+                gone = 'raised ' + type(e).__name__
+            want = [k for k, _ in ref.order]
+            if gone != want:
+                t.bad('C02|strict-keys|eviction-order(probe)', case, want, gone)
+    return t
+
 
 def configs(tier):
     sizes = (1, 2, 3) if tier == 'quick' else (1, 2, 3, 4)
@@ -560,6 +653,16 @@ def run(ctx):
         parts.append((spec.config, res))
         ctx.note('%s max_size=%d on_miss=%s: states=%d transitions=%d depth=%d fixpoint=%s'
                  % (cls, ms, om, res.states, res.transitions, res.depth, res.fixpoint))
+    from mc import inputs
+    sk_tasks = []
+    for cls in ('LRI', 'LRU'):
+        for ms in (1, 2):
+            names = ALLKEYS[:ms + 1]
+            for lead in [('set', n, 1) for n in names] + [('update_pairs', tuple((n, 0) for n in names))]:
+                sk_tasks.append((cls, ms, lead))
+    inputs.run_shards(ctx, strict_shard, sk_tasks, part='strict-keys', rule=(
+        'every history of 3 operations (the first one an insert) with keys of a class whose __eq__ accepts only its own '
+        'kind, against the reference cache'))
     cov = histories.merge_coverage(ctx, parts, rule=(
         'BFS to fixpoint over all histories of the op menu (keys = max_size+1, values as listed per search); a state is the '
         'canonical form of the real object (ring walk, dict items in dict order, lookup keys, on_miss flag)'))
